@@ -547,11 +547,22 @@ func txCase(r *vrt.Run, idx int, judge bool) string {
 	case err != nil:
 		viol("sender:error-on-valid:"+sp.kind.String(), "Sender(%s chain %s, SignTx(type %d)) failed: %v", sp.kind, sp.chain, typ, err)
 	case got != want:
+		// One known root cause has its own fingerprint: types.NewEIP155Signer(0) hashes the
+		// 9-item EIP-155 form (chain id 0) in Hash() but emits an unprotected V (27/28), so
+		// Sender takes the Homestead path and recovers over the 6-item hash. The fingerprint is
+		// used only if exactly that is observed: EIP155Signer, chain id 0, legacy tx, unprotected
+		// V, and the signature verifies under the key over the 9-item hash with chain id 0.
 		fp := "sender:wrong-address:" + sp.kind.String()
-		if sp.eff() == sEIP155 && sp.chain.Sign() == 0 {
-			fp = "sender:wrong-address:eip155-chain0"
+		if sp.kind == sEIP155 && sp.chain.Sign() == 0 && typ == types.LegacyTxType && !legacyProtected(v) {
+			h9 := f.refSigHash(true, new(big.Int))
+			if crypto.VerifySignature(pub65, h9[:], sig64) && !verified {
+				fp = "sender:wrong-address:eip155-chain0"
+			}
 		}
-		viol(fp, "Sender(%s chain %s, SignTx(type %d, key)) = %x, key address %x (reference sig hash verifies: %v)", sp.kind, sp.chain, typ, got, want, verified)
+		viol(fp, "Sender(%s chain %s, SignTx(type %d, key)) = %x, key address %x (signature verifies over the reference hash: %v)", sp.kind, sp.chain, typ, got, want, verified)
+		// stop this case: the matrix and the tamperings below presuppose a working inverse
+		outcome = "inverse-broken"
+		return out.String()
 	default:
 		if !verified {
 			viol("sign:signature-not-over-reference-hash:"+sp.kind.String(), "signature of SignTx does not verify over the reference signature hash %x", refHash)
@@ -559,7 +570,7 @@ func txCase(r *vrt.Run, idx int, judge bool) string {
 		count("inverse_ok")
 	}
 	// cached sender must agree with an uncached computation for every other signer
-	if m := mustReject(f, sp, v, rr, s); m != "" && !(sp.eff() == sEIP155 && sp.chain.Sign() == 0) {
+	if m := mustReject(f, sp, v, rr, s); m != "" {
 		viol("harness:model-rejects-valid", "model says %s for a freshly signed tx (v=%s)", m, v)
 	}
 
@@ -584,7 +595,7 @@ func txCase(r *vrt.Run, idx int, judge bool) string {
 				viol("sender:accepts:"+reason, "tx type %d signed with %s chain %s (v=%s): Sender with %s signer chain %s returned %x", typ, sp.kind, sp.chain, v, k, c, a1)
 			case reason == "" && e1 != nil:
 				viol("sender:cross-signer-rejects:"+k.String(), "tx type %d signed with %s chain %s (v=%s): Sender with %s signer chain %s: %v", typ, sp.kind, sp.chain, v, k, c, e1)
-			case reason == "" && a1 != want && !(sp.eff() == sEIP155 && sp.chain.Sign() == 0) && !(other.eff() == sEIP155 && c.Sign() == 0 && legacyProtected(v)):
+			case reason == "" && a1 != want:
 				viol("sender:cross-signer-wrong-address:"+k.String(), "tx type %d signed with %s chain %s: Sender with %s signer chain %s = %x, want %x", typ, sp.kind, sp.chain, k, c, a1, want)
 			}
 			if reason != "" {
